@@ -224,3 +224,15 @@ def try_poly(e, env=None, atom_of=None):
         return to_poly(e, env, atom_of)
     except NotPoly:
         return None
+
+
+def range_bounds(call, env=None, atom_of=None):
+    """(lo, hi) polynomials of a `range(...)` call with step 1, in either spelling; None if not such a call"""
+    if not (isinstance(call, ast.Call) and isinstance(call.func, ast.Name) and call.func.id == 'range') or len(call.args) not in (1, 2):
+        return None
+    try:
+        if len(call.args) == 1:
+            return Poly.const(0), to_poly(call.args[0], env, atom_of)
+        return to_poly(call.args[0], env, atom_of), to_poly(call.args[1], env, atom_of)
+    except NotPoly:
+        return None
